@@ -60,6 +60,16 @@ inductive Cell where
   | id (i : Ident)
 deriving DecidableEq, Repr, Inhabited
 
+/-- Read component `c` of row `r`: the column found by the bit walk, the row inside it, and the
+value read at the component's type. -/
+def compRead (a : Arch) (r c : Nat) : Out Cell :=
+  match a.cols[colIndex a.mask c]? with
+  | Option.none => .ub .colCount
+  | some col =>
+    match col[r]? with
+    | Option.none => .ub .oobRow
+    | some x => if x.ty = c then .ok (.val x) else .ub .typeConfusion
+
 /-- The value view `v` yields for row `r` of archetype `a` (column found by the bit-walk).
 A non-optional view of an absent component is `uninitRead` (the filter must have excluded it). -/
 def viewCell (a : Arch) (r : Nat) : View → Out Cell
@@ -67,21 +77,8 @@ def viewCell (a : Arch) (r : Nat) : View → Out Cell
     match a.ids[r]? with
     | some i => .ok (.id i)
     | Option.none => .ub .oobRow
-  | v =>
-    match v.comp? with
-    | Option.none => .ub .uninitRead
-    | some c =>
-      if a.mask.has c then
-        match a.cols[colIndex a.mask c]? with
-        | Option.none => .ub .colCount
-        | some col =>
-          match col[r]? with
-          | Option.none => .ub .oobRow
-          | some x => if x.ty = c then .ok (.val x) else .ub .typeConfusion
-      else
-        match v with
-        | .oref _ | .omut _ => .ok .absent
-        | _ => .ub .uninitRead
+  | .ref c | .mut c => if a.mask.has c then compRead a r c else .ub .uninitRead
+  | .oref c | .omut c => if a.mask.has c then compRead a r c else .ok .absent
 
 def rowCells (a : Arch) (r : Nat) : List View → Out (List Cell)
   | [] => .ok []
